@@ -97,6 +97,7 @@ CLASSES = ["ctor/" + ctor_name(p, q) for p, q in CTORS] + \
           ["evolve/%s/o%d/%s" % (i, o, k) for i in ("ias15", "bs") for o in (1, 2)
            for k in ("cart", "mass", "classical", "pal")] + \
           ["evolve/%s/o1/%s" % (i, k) for i in ("whfast", "leapfrog") for k in ("cart", "classical", "pal")] + \
+          ["evolve/leapfrog/o1/mass", "evolve/n_active/varied_testparticle", "evolve/n_active/varied_active"] + \
           ["evolve/testparticle/o1", "evolve/testparticle/o2", "evolve/star_varied", "evolve/two_particles",
            "rescale/triggered/ias15", "rescale/triggered/whfast", "rescale/triggered/leapfrog",
            "megno/whfast", "megno/ias15"]
@@ -245,8 +246,8 @@ orbit_case = st.fixed_dictionaries({
         "vel": st.lists(S.floats(-0.5, 0.5), min_size=3, max_size=3)}),
     "mratio": st.one_of(S.logfloats(1e-9, 0.5), st.just(0.0)),
     "a": S.logfloats(0.05, 50.0),
-    "e": st.one_of(S.floats(0.01, 0.9), S.floats(0.01, 0.9), S.floats(0.01, 0.9), S.floats(0.0, 0.01),
-                   st.just(0.0)),
+    "e": st.one_of(S.floats(0.01, 0.9), S.floats(0.01, 0.9), S.floats(0.01, 0.9), S.floats(0.01, 0.9),
+                   S.floats(0.01, 0.9), S.floats(0.3, 0.9), S.floats(0.0, 0.01), st.just(0.0)),
     "inc": st.one_of(S.floats(0.0, 2.5), S.floats(0.0, 2.5), S.floats(0.0, 0.01), st.just(0.0)),
     "Omega": S.angles, "omega": S.angles, "f": S.angles,
 })
@@ -448,6 +449,13 @@ def evolve_case(draw, tier="quick"):
     al = allowed_params(sysd, j, testparticle)
     p = draw(st.sampled_from(al + [x for x in al if x not in CART]))
     case = {"system": sysd, "integrator": integ, "order": order, "testparticle": testparticle, "j": j, "p": p}
+    # N_active = N-1 with a massless last planet: the same physics as N_active=-1, but the variational force
+    # takes its separate active/test-particle loop (first order only: the second-order loops ignore N_active)
+    if n >= 3 and order == 1 and not testparticle and draw(st.integers(0, 3)) == 0:
+        sysd["planets"][-1]["m"] = 0.0
+        case["n_active"] = n - 1
+        if j == n - 1 and kind_of(p) == "mass":
+            case["p"] = p = "a"
     if order == 2:
         same = testparticle or draw(st.integers(0, 2)) != 0
         j2 = j if same else draw(st.integers(0, n - 1))
@@ -542,6 +550,8 @@ def configure(sim, base, case, shadow):
     """Integrator setup.  shadow=True: reference trajectories.  IAS15/BS cases are compared with the true flow
     (IAS15 shadows); WHFast/LEAPFROG cases with the same discrete map."""
     integ = case["integrator"]
+    if case.get("n_active") is not None:
+        sim.N_active = case["n_active"]
     if integ in ("whfast", "leapfrog"):
         sim.integrator = integ
         sim.dt = case["dtfrac"] * base.P_in
@@ -797,6 +807,8 @@ def run_evolve(case, ctx):
         ctx.cls("star_varied")
     if order == 2 and case["j2"] != j:
         ctx.cls("two_particles")
+    if case.get("n_active") is not None:
+        ctx.cls("n_active/" + ("varied_testparticle" if j == case["n_active"] else "varied_active"))
     if tol > 1e-4 * R:
         ctx.cls("weak_tolerance(>1e-4)")
     if order == 2 or tp or kinds - {"cart"}:
@@ -973,11 +985,11 @@ def run_megno(case, ctx):
 
 def subs(tier):
     return [
-        Sub("ctor", run_ctor, strategy=orbit_case, quick=1600, thorough=40000, shards_quick=8, shards_thorough=16),
-        Sub("evolve", run_evolve, strategy=evolve_case(tier), quick=2400, thorough=40000, shards_quick=8,
+        Sub("ctor", run_ctor, strategy=orbit_case, quick=2400, thorough=60000, shards_quick=8, shards_thorough=16),
+        Sub("evolve", run_evolve, strategy=evolve_case(tier), quick=8000, thorough=64000, shards_quick=16,
             shards_thorough=16),
-        Sub("rescale", run_rescale, strategy=rescale_case(), quick=320, thorough=6000, shards_quick=4,
+        Sub("rescale", run_rescale, strategy=rescale_case(), quick=800, thorough=12000, shards_quick=4,
             shards_thorough=8),
-        Sub("megno", run_megno, strategy=megno_case(tier), quick=16, thorough=400, shards_quick=4,
+        Sub("megno", run_megno, strategy=megno_case(tier), quick=32, thorough=480, shards_quick=4,
             shards_thorough=16),
     ]
